@@ -87,6 +87,10 @@ func buildOverlay(module, scratch string, extra map[string]string) (map[string]s
 			}
 			rel, _ := filepath.Rel(srcRoot, p)
 			dir := filepath.Dir(rel)
+			if strings.HasPrefix(dir, "zzh") && len(extra) == 0 {
+				// harnesses over generated bindings need the bindings
+				return nil
+			}
 			base := filepath.Base(rel)
 			b, err := os.ReadFile(p)
 			if err != nil {
